@@ -465,7 +465,7 @@ pub fn check_edges3(w: &[u64], t: &mut Tally) -> Result<(), Fail> {
     }
     // composition and inversion
     macro_rules! compose {
-        ($ka:expr, $A:ident, $M4:ident, $OA:ident, $u:expr, $an:expr) => {{
+        ($ka:expr, $A:ident, $M4:ident, $V3:ident, $OA:ident, $u:expr, $an:expr) => {{
             let ((oa, ra), (ob, rb)) = (start3($ka, &a).unwrap(), start3($ka, &b).unwrap());
             if let (O3::$OA(ga), O3::$OA(gb)) = (oa, ob) {
                 let (prod, pabs) = ra.m.mul(&rb.m);
@@ -508,6 +508,27 @@ pub fn check_edges3(w: &[u64], t: &mut Tally) -> Result<(), Fail> {
                         let tol = |j: usize, i: usize| if i == 3 { K * $u * kappa } else if j < 3 { K * $u * kappa * nli } else { K * $u * kappa * nli * nt };
                         logic::entries_within::<4>(cx!(t, $an), "affine3/inverse", "Mat4::from(a).inverse()", &O3::raw(&rhs.into()), &x, &tol, &ctx)?;
                         t.class("inverse:checked");
+                        // the Mat4 inverse still acts like the affine inverse. Its bottom row is (0, 0, 0, 1) up to the rounding of
+                        // cofactor / determinant, which transform_point3 / transform_vector3 accept (also under glam-assert)
+                        let r3 = rhs.row(3);
+                        if r3.x.abs() <= 5e-7 && r3.y.abs() <= 5e-7 && r3.z.abs() <= 5e-7 && (r3.w - 1.0).abs() <= 5e-7 {
+                            let pp = $V3::new(p[0] as _, p[1] as _, p[2] as _);
+                            let vv = $V3::new(v[0] as _, v[1] as _, v[2] as _);
+                            let ai = ga.inverse();
+                            let pmax = p.iter().chain(v.iter()).fold(0.0f64, |m, x| m.max((*x as f64).abs()));
+                            let tol_act = 4.0 * K * $u * kappa * nli * (3.0 * pmax + nt) + 1e-300;
+                            let pairs = [("transform_point3", rhs.transform_point3(pp), ai.transform_point3(pp)), ("transform_vector3", rhs.transform_vector3(vv), ai.transform_vector3(vv))];
+                            for (name, g1, g2) in pairs {
+                                let (g1, g2) = (g1.to_array(), g2.to_array());
+                                for i in 0..3 {
+                                    let d = (g1[i] as f64 - g2[i] as f64).abs();
+                                    cx!(t, $an).within("affine3/inverse", &format!("Mat4::from(a).inverse().{name} vs a.inverse().{name}"), d, tol_act, &|| format!("component {i}: {:?} vs {:?}; {}", g1[i], g2[i], ctx()))?;
+                                }
+                            }
+                            t.class("inverse:action-checked");
+                        } else {
+                            t.class("inverse:bottom-row-off-by-more-than-5e-7(action skipped)");
+                        }
                     } else {
                         t.class("inverse:ill-conditioned(skipped)");
                     }
@@ -517,8 +538,8 @@ pub fn check_edges3(w: &[u64], t: &mut Tally) -> Result<(), Fail> {
             }
         }};
     }
-    compose!(4, Affine3A, Mat4, A, U32, "Affine3A");
-    compose!(8, DAffine3, DMat4, DA, U64, "DAffine3");
+    compose!(4, Affine3A, Mat4, Vec3, A, U32, "Affine3A");
+    compose!(8, DAffine3, DMat4, DVec3, DA, U64, "DAffine3");
     Ok(())
 }
 impl From<Mat4> for O3 {
